@@ -4,7 +4,7 @@ CONSTANTS
   MaxDepth = 4
   LeafKinds = {"Memory", "Container", "Compute"}
   BranchKinds = {"Fork", "Hierarchical"}
-  Fanouts = {1, 2}
+  Fanouts = {2}
   ComputeFanouts = {1, 3}
   MinEmit = 1
   AppendComputes = FALSE
